@@ -97,7 +97,7 @@ STD_OPTIONS = [
     ("uninformed_acceptance_threshold", [None, 0.5]),
     ("analytic_priors", [("ramp", True)]),
     ("prior_sampling", [True]),
-    ("shrinkage_expectation", ["t", "logt", ("!", "x")]),
+    ("shrinkage_expectation", ["t", "logt", "LogT", "T", "LOGT", ("!", "x")]),
     ("stopping", [0.1, 2]),
     ("max_iteration", [None, 5]),
     ("run.posterior_sampling_method", ["rejection_sampling", "multinomial_resampling", "importance_sampling", ("!", "x")]),
@@ -120,7 +120,7 @@ INS_OPTIONS = [
     ("draw_constant", [True, False]),
     ("draw_iid_live", [True, False]),
     ("save_log_q", [True]),
-    ("threshold_method", ["entropy", "quantile", ("!", "x")]),
+    ("threshold_method", ["entropy", "quantile", "Entropy", "QUANTILE", ("!", "x")]),
     ("threshold_kwargs", [{"q": 0.2}, {"q": 0.5}, {"q": 0.8}, {"q": 0.5, "include_likelihood": True}, ("entropy", {"use_log_weights": False})]),
     ("stopping_criterion", ["ratio", "ratio_all", "ratio_ns", "Z_err", "evidence_error", "log_dZ", "log_evidence", "ess", "fractional_error", ("!", "unknown")]),
     ("stopping_pairs", [("pair", ("ess", "ratio")), ("pair", ("log_dZ", "Z_err")), ("pair-bad", ("ess", "ratio"))]),
